@@ -49,7 +49,7 @@ ASSUMPTIONS = [
     "edge_inds passed as torch.Tensor(list) (float tensor (E,2)), which is how CustomDataset/pipelines call the code",
     "'inside the image' = node in [0,W-1]x[0,H-1]; 'wholly outside' = no node inside; float32 tolerance ATOL=1e-5 on weights/components, DELTA=1e-4 on reference distances",
     "quick runs (flatten, api) in {(True,fn),(False,fn),(True,dp)}; thorough the full 2x2 product",
-    "violations matching a known-finding signature predicate are recorded individually only for the first 12 per shard and predicate; the rest are counted in coverage.violations_with_signature_* (the runner stores at most 200 violations per shard and treats any overflow as unknown, i.e. as real)",
+    "every failed clause of a case is handed to the runner as its own violation (case + focus = clause/animal/edge), so a known-finding signature can never mask a different failure of the same case; coverage.violations_with_signature_* counts how many match each signature predicate whether or not the finding is listed",
     "family C checks additivity against the real single-animal outputs; the per-animal clauses (ii)-(iv) are decided on the single-animal families A/B, of which C's animals are members",
 ]
 MIN_OUTCOMES = 200
@@ -504,7 +504,6 @@ def k2_border_strip(case, msg):
 
 
 KNOWN_PREDICATES = {"k1_short_edge": k1_short_edge, "k2_border_strip": k2_border_strip}
-KEEP_PER_SHARD = 12  # signature-matching violations recorded individually per shard and predicate; the rest are only counted
 
 
 # ---------------------------------------------------------------------------
@@ -541,10 +540,6 @@ def report(part, case, fails, kept):
                 break
         if sig is not None:
             part.add(f"violations_with_signature_{sig}")
-            kept[sig] = kept.get(sig, 0) + 1
-            if kept[sig] > KEEP_PER_SHARD:
-                part.add(f"violations_with_signature_{sig}_counted_not_recorded")
-                continue
         part.violation(c, msg)
 
 
